@@ -135,8 +135,12 @@ def check_case(ctx, case):
                 PIL.Image.fromarray(np.moveaxis(stack[:, s], 0, -1), "RGB"
                                     ).save(place(p, names[s], s))
         else:
+            # directory names whose order on the command line is not their
+            # lexicographic order (channels follow the order given)
+            dnames = ["red", "green", "blue"] if case["seed"] % 2 else \
+                ["ch2", "ch10", "ch1"]
             for c in range(nch):
-                p = os.path.join(d, "in%d" % c)
+                p = os.path.join(d, dnames[c])
                 os.makedirs(p)
                 dirs.append(p)
                 for s in range(nsl):
